@@ -96,7 +96,7 @@ def gen_case(rng):
 def run(res):
     vh, exe = P.base(res, PROP)
     rng = random.Random(res.seed)
-    cases = [gen_case(rng) for _ in range(3000 if res.tier == "quick" else 300000)]
+    cases = [gen_case(rng) for _ in range(3000 if res.tier == "quick" else 1000000)]
     # every width x every boundary value, alone, in both segments
     for d, w in WIDTH.items():
         for v in bound_values(w):
@@ -110,6 +110,23 @@ def run(res):
                         out += b"\0"
                     exp = ("OK", out.hex() if seg == "c" else "", out.hex() if seg == "e" else "")
                 cases.append((lines, exp))
+    # empty operand lists and empty strings: a line that contributes no bytes is still subject to every check
+    for d, w in WIDTH.items():
+        for seg in ("c", "e", "d"):
+            for ops in ([], ['""'], ['""', '""'], ['""', "1"], ["1", '""'], ['"a"', '""', '"b"']):
+                has_str = any(o.startswith('"') for o in ops)
+                if seg == "d" or (has_str and d != "db"):
+                    exp = ("ERR",)
+                else:
+                    out = bytearray()
+                    for o in ops:
+                        out += o.strip('"').encode() if o.startswith('"') else int(o).to_bytes(w, "little")
+                    if seg == "c" and d == "db" and len(out) % 2 == 1:
+                        out += b"\0"
+                    exp = ("OK", out.hex() if seg == "c" else "", out.hex() if seg == "e" else "")
+                for tail in ([], [" nop"] if seg == "c" else [".cseg", " nop"]):
+                    e2 = exp if exp[0] == "ERR" or not tail else ("OK", exp[1] + "0000", exp[2])
+                    cases.append(([{"c": ".cseg", "e": ".eseg", "d": ".dseg"}[seg], (".%s %s" % (d, ", ".join(ops))).rstrip()] + tail, e2))
     texts = ["\n".join(l) + "\n" for l, _ in cases]
     obs = P.correspond(res, vh, exe, texts, "data-directive programs")
     nerr = 0
